@@ -149,8 +149,9 @@ func v25Check(content string) (fails []hlib.Failure) {
 	return
 }
 
-func TestVerifC08TwoOfFive(t *testing.T) {
-	r := hlib.New("C08")
+func v25Main(t *testing.T, id string, only ...string) {
+	r := hlib.New(id)
+	r.Only = only
 	defer r.Done(t)
 	rng := rand.New(rand.NewSource(r.Seed))
 	thorough := r.Tier == "thorough"
@@ -165,7 +166,7 @@ func TestVerifC08TwoOfFive(t *testing.T) {
 		cases = append(cases, string(c), "1"+string(c), string(c)+"1", "12"+string(c), "1"+string(c)+"2", string(c)+string(c), "12"+string(c)+string(c))
 	}
 	// all digit strings up to length 4 (6 thorough): every digit pair is an interleaved character pair
-	maxLen := 4
+	maxLen := 5
 	if thorough {
 		maxLen = 6
 	}
@@ -182,9 +183,9 @@ func TestVerifC08TwoOfFive(t *testing.T) {
 		}
 	}
 	flush()
-	n := 20000
+	n := 200000
 	if thorough {
-		n = 2000000
+		n = 8000000
 	}
 	for i := 0; i < n; i++ {
 		l := 1 + rng.Intn(24)
@@ -202,4 +203,11 @@ func TestVerifC08TwoOfFive(t *testing.T) {
 		}
 	}
 	flush()
+}
+
+func TestVerifC08TwoOfFive(t *testing.T) { v25Main(t, "C08") }
+
+// The same cases reported under the other properties they serve (only the named checks count).
+func TestVerifC10TwoOfFive(t *testing.T) {
+	v25Main(t, "C10", "panic", "result-shape", "rejects-representable", "accepts-unrepresentable")
 }
